@@ -98,6 +98,8 @@ pub mod sass_ast {
 
 pub use codemap;
 
+#[cfg(grass_verif)]
+pub mod verif;
 mod ast;
 mod builtin;
 mod color;
